@@ -81,7 +81,8 @@ class DilutionPlan:
             raise ValueError(f"xmin ({xmin}) must be <= xmax ({xmax})")
         N = R * C
 
-        vmax_arr = numpy.atleast_1d(vmax)
+        # an own float copy: the caller's array may be of a narrow integer type and may change later
+        vmax_arr = numpy.atleast_1d(vmax).astype(float)
         if len(vmax_arr) == 1:
             vmax_arr = numpy.repeat(vmax_arr, C)
         if not len(vmax_arr) == C:
